@@ -43,6 +43,10 @@ OPSETS = {
 }
 
 
+def _is_int(e):
+    return isinstance(e, ast.Constant) and isinstance(e.value, int) and not isinstance(e.value, bool)
+
+
 class Canon:
     """Canonical renaming of parameters and constructor-fed fields."""
 
@@ -108,9 +112,11 @@ class Outcome:
 
 
 class Interp:
-    def __init__(self, repo, fi, inline=None, max_leaves=4096):
+    def __init__(self, repo, fi, inline=None, max_leaves=4096, body=None, init_env=None):
         self.repo = repo
         self.fi = fi
+        self.body = body              # interpret this statement list instead of the whole function
+        self.init_env = init_env or {}
         self.canon = Canon(repo, fi)
         self.inline = inline or {}
         self.max_leaves = max_leaves
@@ -191,8 +197,16 @@ class Interp:
                         ast.NotEq: a.value != b.value}[type(op)]
             except TypeError:
                 pass
+        # integer constants: x <= c  ==  x < c+1 ;  x >= c  ==  x > c-1  (one atom per boundary)
+        op_t = type(op)
+        if _is_int(b) and op_t in (ast.LtE, ast.GtE):
+            b = ast.Constant(value=b.value + (1 if op_t is ast.LtE else -1))
+            op_t = ast.Lt if op_t is ast.LtE else ast.Gt
+        elif _is_int(a) and op_t in (ast.LtE, ast.GtE):
+            a = ast.Constant(value=a.value + (-1 if op_t is ast.LtE else 1))
+            op_t = ast.Lt if op_t is ast.LtE else ast.Gt
         ta, tb = txt(a), txt(b)
-        allowed = OPSETS[type(op)]
+        allowed = OPSETS[op_t]
         if ta == tb:
             return 'eq' in allowed
         if ta > tb:
@@ -204,9 +218,9 @@ class Interp:
     # ------------------------------------------------------------ statements
     def run(self, val):
         """Interpret the function under valuation `val` -> Outcome (or raises _Need)."""
-        env = {}
+        env = dict(self.init_env)
         effects = []
-        out = self._block(self.fi.node.body, env, effects, val)
+        out = self._block(self.body if self.body is not None else self.fi.node.body, env, effects, val)
         if out is None:
             out = Outcome('fall', None, effects, val)
         return out
@@ -266,6 +280,10 @@ class Interp:
         if isinstance(s, ast.Assert):
             effects.append('assert ' + txt(self._c(s.test, env)))
             return None
+        if isinstance(s, ast.Continue):
+            return Outcome('continue', None, effects, val)
+        if isinstance(s, ast.Break):
+            return Outcome('break', None, effects, val)
         if isinstance(s, (ast.With, ast.AsyncWith)):
             for it in s.items:
                 effects.append('with ' + txt(self._c(it.context_expr, env)))
